@@ -161,27 +161,41 @@ def fn_body(src, header_re, what):
 
 
 def access_list(body, what):
-    """The ordered list of atomic accesses / lock operations / calls that matter, as tokens."""
+    """The ordered list of atomic accesses / lock operations / calls / control keywords of a body."""
     toks = []
     pat = re.compile(
-        r"(?P<field>[a-z_\.\[\]0-9A-Za-z() %&]*?)\.(?P<op>load|store)\(\s*(?P<args>[^;]*?)\)\s*[;,)]"
-        r"|(?P<lock>\.(?:try_lock|lock)\(\))"
-        r"|(?P<call>\b(?:advance_once|snapshot|update|try_update|clear_poison)\()"
+        r"\.(?P<op>load|store)\s*\("
+        r"|(?P<lock>\.(?:try_lock|lock)\s*\(\s*\))"
+        r"|(?P<call>\b(?:advance_once|snapshot|update|try_update|clear_poison)\s*\()"
         r"|(?P<kw>\bloop\b|\bwhile\b|\bfor\b|\breturn\b|\bbreak\b|\bcontinue\b)")
     for m in pat.finditer(body):
         if m.group("op"):
-            args = m.group("args")
+            # receiver: the path expression immediately before `.load(` / `.store(`
+            j = m.start()
+            k = j
+            while k > 0 and (body[k - 1].isalnum() or body[k - 1] in "_.[]()% "):
+                if body[k - 1] == " " and not (k >= 2 and body[k - 2] in "%"):
+                    break
+                k -= 1
+            recv = re.sub(r"\s+", "", body[k:j])
+            recv = re.sub(r"^.*?((?:self|slot|base_time)\.[A-Za-z_0-9.]+)$", r"\1", recv)
+            # arguments: balanced parentheses
+            depth, e = 1, m.end()
+            while e < len(body) and depth:
+                if body[e] == "(":
+                    depth += 1
+                elif body[e] == ")":
+                    depth -= 1
+                e += 1
+            args = body[m.end():e - 1]
             om = re.search(r"Ordering::(\w+)", args)
             if not om:
-                raise TranslateError(f"{what}: atomic {m.group('op')} without an explicit Ordering")
-            fld = re.sub(r"\s+", "", m.group("field"))
-            fld = fld.split("=")[-1]
-            fld = re.sub(r"^.*?(self\.|base_time\.|slot\.|[a-z_]+\.)", r"\1", fld)
-            toks.append((m.group("op"), fld, om.group(1)))
+                raise TranslateError(f"{what}: atomic {m.group('op')} on {recv} without an explicit Ordering")
+            toks.append((m.group("op"), recv, om.group(1)))
         elif m.group("lock"):
-            toks.append(("lockop", m.group("lock").strip(".()"), ""))
+            toks.append(("lockop", re.sub(r"[.()\s]", "", m.group("lock")), ""))
         elif m.group("call"):
-            toks.append(("call", m.group("call").strip("("), ""))
+            toks.append(("call", re.sub(r"[(\s]", "", m.group("call")), ""))
         elif m.group("kw"):
             toks.append(("kw", m.group("kw"), ""))
     return toks
